@@ -2,6 +2,8 @@
    Every statement quantifies over all machine states / stacks (nesting depths) / scripts; constants (signal and
    status numbers, mask letters, refused-status sets) come from Gen/Fiber.lean, regenerated from the C on every run. -/
 import JanetModel.Fiber.Macros
+import JanetModel.Fiber.GuardLemmas
+import JanetModel.Fiber.SchedLemmas
 namespace JanetModel.Props.C05
 open JanetModel.Fiber JanetModel.Gen.Fiber
 
@@ -639,6 +641,168 @@ example :
     let t : Tm := .new 1 (deferTm 0 7 form body (.ret (.var 0))) [97] (.prim 8 (.resume (.var 0) nilA) (.ret (.var 1)))
     let s := run 200 (init t [97])
     ((s.trace.filter (fun e => e.l == 6)).length, (s.trace.filter (fun e => e.l == 8)).map (·.v), s.snapshot) = (1, [.int 11], [stAlive, stDead, stUser2, stUser2]) := by
+  decide
+
+/-! ## cleanup forms and the event loop: cancellation by ev/cancel, timeouts, re-scheduling -/
+
+/-- finished is for ever also along executions in which the event loop dispatches tasks -/
+theorem finished_is_forever_sched (s : State) (hinv : Inv s) (ts : List Trans) (hs : SigsOK ts) (g : FId) (fg : Fiber)
+    (hg : s.fiber? g = some fg) (hfin : isFinished fg.status = true) :
+    ∃ fg', (runT s ts).fiber? g = some fg' ∧ fg'.status = fg.status := by
+  obtain ⟨fg', h1, h2, _⟩ := (runT_res ts s hinv hs).1 g fg hg
+  refine ⟨fg', h1, ?_⟩
+  rcases h2 with h | ⟨h, _⟩
+  · exact h.symm
+  · rw [hfin] at h; cases h
+
+/-- the conclusion of the cleanup theorems for an execution `ts` that interleaves machine steps with task dispatches of the
+    event loop (`Trans.enter g v sig`: janet_loop1 continuing task `g` with value `v`, `sig` = OK for ev/go and wake-ups,
+    ERROR for ev/cancel and timeouts) -/
+def ExactlyOnceSched (m : Nat) (p f : FId) (cont : Cont) (s : State) (ts : List Trans) : Prop :=
+  Blk m p f cont (runT s ts) (runT s ts).stack ∨
+  ∃ k, 0 < k ∧ k ≤ ts.length ∧ (∀ j, j < k → Blk m p f cont (runT s (ts.take j)) (runT s (ts.take j)).stack) ∧
+    (Stuck (runT s (ts.take k)) ∨
+     (Exited p f cont (runT s (ts.take k)) ∧
+        ∀ us, SigsOK us → ∃ ff, (runT (runT s (ts.take k)) us).fiber? f = some ff ∧ isFinished ff.status = true) ∨
+     (Passed m p f cont (runT s (ts.take k)) ∧
+        ∀ us, SigsOK us → (∃ ff, (runT (runT s (ts.take k)) us).fiber? f = some ff ∧ isFinished ff.status = true) ∧
+                           (∃ fp, (runT (runT s (ts.take k)) us).fiber? p = some fp ∧ isFinished fp.status = true)))
+
+theorem inv_runT_take (s : State) (hinv : Inv s) (ts : List Trans) (k : Nat)
+    (hp : ∀ j (hj : j < ts.length), SigsOK [ts[j]]) : Inv (runT s (ts.take k)) := by
+  induction ts generalizing s k with
+  | nil => simpa [runT] using hinv
+  | cons t ts ih =>
+    cases k with
+    | zero => simpa [runT] using hinv
+    | succ k =>
+      simp only [List.take_succ_cons, runT]
+      exact ih _ (trans_res s hinv t (hp 0 (by simp))).2 k (fun j hj => by have := hp (j + 1) (by simp; omega); rwa [List.getElem_cons_succ] at this)
+
+/-- ★ `defer` / `edefer` / `with` / `try` / `protect` / `prompt` / `with-dyns` — cleanup exactly once on every exit path
+    INCLUDING cancellation that comes from the event loop.  `ts` is any sequence of machine instructions and task dispatches:
+    the loop may continue or cancel (janet_cancel → janet_continue_signal with JANET_SIGNAL_ERROR, which walks to the
+    innermost suspended child and makes it raise) the macro's own fiber, any ancestor, any unrelated task — anything but the
+    private body fiber itself (`PrivT`).  Then: still blocked with the body not exited, or a first transition after which
+    the machine is stuck, or the body is finished for ever and the code after the resume (the cleanup) is what `p` runs, or
+    (masks other than :ti) the body's exit passed `p` by and both are finished for ever. -/
+theorem macro_runs_exactly_once_sched (m : Nat) (hm : AccFin m) (p f : FId) (cont : Cont) (s : State) (hinv : Inv s) (hne : p ≠ f)
+    (hb : Blk m p f cont s s.stack) (ts : List Trans)
+    (hpriv : ∀ k (hk : k < ts.length), PrivT p f (runT s (ts.take k)) ts[k]) : ExactlyOnceSched m p f cont s ts := by
+  unfold ExactlyOnceSched
+  rcases blocked_until_exit_sched hm ts s hinv hne hb hpriv with h | ⟨k, hk0, hk, hbefore, hat⟩
+  · exact Or.inl h
+  · refine Or.inr ⟨k, hk0, hk, hbefore, ?_⟩
+    have hinv' : Inv (runT s (ts.take k)) := inv_runT_take s hinv ts k (fun j hj => privT_sigsOK (hpriv j hj))
+    rcases hat with h | h | h
+    · exact Or.inl h
+    · refine Or.inr (Or.inl ⟨h, fun us hus => ?_⟩)
+      obtain ⟨⟨ff, hff, hfin⟩, _⟩ := h
+      obtain ⟨ff', h1, h2⟩ := finished_is_forever_sched _ hinv' us hus f ff hff hfin
+      exact ⟨ff', h1, h2 ▸ hfin⟩
+    · refine Or.inr (Or.inr ⟨h, fun us hus => ?_⟩)
+      obtain ⟨ff, fp, hff, hfp, hfin, _, _, hst, _, _⟩ := h
+      obtain ⟨ff', h1, h2⟩ := finished_is_forever_sched _ hinv' us hus f ff hff hfin
+      obtain ⟨fp', h3, h4⟩ := finished_is_forever_sched _ hinv' us hus p fp hfp (hst ▸ hfin)
+      exact ⟨⟨ff', h1, h2 ▸ hfin⟩, ⟨fp', h3, h4 ▸ (hst ▸ hfin)⟩⟩
+
+/-- ★ `defer_runs_exactly_once` extended to the event loop (mask :ti: `Passed` cannot occur) -/
+theorem defer_runs_exactly_once_sched (p f : FId) (cont : Cont) (s : State) (hinv : Inv s) (hne : p ≠ f)
+    (hb : Blk (maskOfFlags flagsTI) p f cont s s.stack) (ts : List Trans)
+    (hpriv : ∀ k (hk : k < ts.length), PrivT p f (runT s (ts.take k)) ts[k]) :
+    Blk (maskOfFlags flagsTI) p f cont (runT s ts) (runT s ts).stack ∨
+    ∃ k, 0 < k ∧ k ≤ ts.length ∧
+      (∀ j, j < k → Blk (maskOfFlags flagsTI) p f cont (runT s (ts.take j)) (runT s (ts.take j)).stack) ∧
+      (Stuck (runT s (ts.take k)) ∨
+       (Exited p f cont (runT s (ts.take k)) ∧
+          ∀ us, SigsOK us → ∃ ff, (runT (runT s (ts.take k)) us).fiber? f = some ff ∧ isFinished ff.status = true)) := by
+  rcases macro_runs_exactly_once_sched _ accFin_TI p f cont s hinv hne hb ts hpriv with h | ⟨k, hk0, hk, hbefore, hat⟩
+  · exact Or.inl h
+  · refine Or.inr ⟨k, hk0, hk, hbefore, ?_⟩
+    rcases hat with h | h | ⟨h, _⟩
+    · exact Or.inl h
+    · exact Or.inr h
+    · obtain ⟨ff, _, _, _, hfin, hlt, hrej, _⟩ := h
+      rw [rejected_unfinished ff.status hlt hrej] at hfin; cases hfin
+
+/-- the machine really does it: a task whose `defer` body yields is left suspended by the loop; `ev/cancel` (dispatch with
+    JANET_SIGNAL_ERROR) then makes the BODY fiber raise, and the cleanup (label 6) runs exactly once; a second cancel is
+    refused (the task is finished) and runs nothing -/
+example :
+    let body : Tm := .prim 3 (.pure (.lit (.int 10))) (.prim 4 (.yield (.lit (.int 11))) (.ret (.lit (.int 13))))
+    let form : Tm := .prim 6 (.pure (.lit (.int 20))) (.ret (.lit (.int 21)))
+    let t : Tm := deferTm 0 7 form body (.ret (.var 0))
+    let s1 := run 100 (initTask t [] {} .nil)
+    let s2 := run 100 (loopEnter s1 1 (.str "cancelled") sigError)
+    let s3 := run 100 (loopEnter s2 1 (.str "again") sigError)
+    ((s1.trace.filter (fun e => e.l == 6)).length, s1.snapshot, (s2.trace.filter (fun e => e.l == 6)).length, s2.snapshot,
+     (s3.trace.filter (fun e => e.l == 6)).length, s3.snapshot)
+      = (0, [stUser9, stPending, stPending], 1, [stUser9, stError, stError], 1, [stUser9, stError, stError]) := by
+  decide
+
+/-! ## the C recursion guard (janet_vm.stackn / JANET_RECURSION_GUARD) -/
+
+/-- ★ the counter is restored on EVERY exit path of janet_continue_no_check: normal return, signal, or a longjmp out of
+    arbitrarily nested janet_calls that skipped their own `janet_vm.stackn = oldn` (`innerRun` may leave the counter
+    anywhere and report a longjmp in flight) — for suspended child chains of any length -/
+theorem recursion_counter_restored (innerRun : Nat → Nat × Bool) (chain n : Nat) : contN innerRun chain n = n :=
+  contN_restores innerRun chain n
+
+/-- … every run_vm activation that returns (is not left by a longjmp) leaves the counter as it found it, whatever
+    sequence of nested janet_calls / resumes / caught panics it performed; and a `resume` is never left by a longjmp -/
+theorem run_vm_counter_restored (es : List Ev) (n : Nat) (h : (runEvs n es).2 = false) : (runEvs n es).1 = n :=
+  runEvs_restores es n h
+
+theorem resume_counter_restored (chain : Nat) (inner : List Ev) (n : Nat) : runEv n (.resume chain inner) = (n, false) :=
+  resume_restores chain inner n
+
+/-- non-vacuity: a callee that panics two janet_calls deep inside a resumed fiber — the counter was 7, is 10 at the panic,
+    and is 7 again after the resume; an uncaught panic inside a janet_call is still in flight with the counter NOT restored -/
+example : runEv 7 (.resume 1 [.call [.call [.panic]]]) = (7, false) ∧ runEv 7 (.call [.call [.panic]]) = (9, true) := by decide
+
+/-- ★ the guard only fails a fiber that could otherwise be resumed (statement order of the current tree): if
+    janet_check_can_resume refuses because of the guard — the only case in which it overwrites the fiber's status with
+    :error — then the fiber is not the root, not running and not finished -/
+theorem guard_refuses_only_resumable (lim n : Nat) (fp : Fiber) (b : Bool) (msg : Val)
+    (h : checkGuarded guardAfterRefusals lim n fp b = some (msg, true)) :
+    fp.root = false ∧ isFinished fp.status = false ∧ fp.status ≠ stAlive ∧ n ≥ lim ∧ msg = guardMsg := by
+  obtain ⟨hc, hn, hm⟩ := checkGuarded_trip_resumable (show checkGuarded true lim n fp b = some (msg, true) from h)
+  obtain ⟨h1, h2⟩ := not_refused (checkCanResume_none hc)
+  refine ⟨?_, h1, h2, hn, hm⟩
+  unfold checkCanResume at hc
+  split at hc
+  · cases hc
+  · rename_i hr; simpa using hr
+
+/-- ★ status_monotone for the GUARDED machine, full strength: along every execution of `runG` (the machine with the
+    recursion guard at any limit `lim`, statement order of the current tree) from any `Inv` state each fiber stays
+    registered, keeps its mask and its status only moves forward.  With the guard tested FIRST (the pinned tree) this is
+    false: `guard_clobbers_status_in_old_order`; the proof below does not typecheck there. -/
+theorem status_monotone_guarded (lim : Nat) (s : State) (hinv : Inv s) (n : Nat) (g : FId) (fg : Fiber) (hg : s.fiber? g = some fg) :
+    ∃ fg', (runG guardAfterRefusals lim n s).fiber? g = some fg' ∧ Fwd fg.status fg'.status ∧ fg'.mask = fg.mask :=
+  (runG_res lim n s hinv).1 g fg hg
+
+/-- … and the guarded machine IS the unguarded one as long as the counter stays below the limit, so every theorem about
+    `step` / `run` above applies to such executions -/
+theorem guarded_is_unguarded_below (after : Bool) (lim : Nat) (s : State) (h : depthOf s + chainFuel s < lim) :
+    stepG after lim s = step s := stepG_below after lim s h
+
+/-- the witness behind finding 5 (fixed in /repo 3d82764, corpus/C05/guard-clobbers-status.janet): with the guard tested
+    BEFORE the refusals, a `(resume d)` of a :dead fiber at the limit turns it :error — a finished fiber changes status;
+    with the guard after the refusals the same script leaves it :dead and the caller gets the ordinary refusal -/
+theorem guard_clobbers_status_in_old_order :
+    let t : Tm := .new 1 (.ret nilA) [101] (.prim 2 (.resume (.var 0) nilA)
+      (.new 3 (.prim 5 (.resume (.var 0) nilA) (.ret (.var 3))) [97] (.prim 4 (.resume (.var 2) nilA) (.ret (.var 3)))))
+    ((runG false 2 100 (init t [97])).snapshot, (runG true 2 100 (init t [97])).snapshot)
+      = ([stAlive, stDead, stError, stError], [stAlive, stDead, stDead, stError]) := by
+  decide
+
+/-- non-vacuity of the guard itself: a NEW fiber resumed at the limit is failed by the guard — it ends :error without
+    having run (label 9 never logged) and the caller receives the guard's message -/
+example :
+    let t : Tm := .new 1 (.prim 9 (.pure (.lit (.int 1))) (.ret nilA)) [97] (.prim 2 (.resume (.var 0) nilA) (.ret (.var 1)))
+    let s := runG true 1 100 (init t [97])
+    (s.snapshot, (s.trace.filter (fun e => e.l == 9)).length, s.halt.isSome) = ([stAlive, stError, stError], 0, true) := by
   decide
 
 /-! ## dynamic bindings -/
